@@ -165,6 +165,11 @@ static void atomic_sync(uintptr_t addr, bool acq, bool rel) {
 }
 
 void race_reset() { delete RS; RS = nullptr; }
+// what a libc call does to the caller's buffer on behalf of the library (TSan's interceptors do the same): read() writes it, write() reads it
+void race_range(const void *p, size_t n, bool write) {
+    if (!n || !p) return;
+    access((uintptr_t)p, n, write, false, __builtin_return_address(0));
+}
 void race_once_enter() { if (active()) hb_acquire(rs().once_vc); }
 void race_once_exit() { if (active()) hb_release(rs().once_vc); }
 void race_stats(uint64_t &accesses, uint64_t &preempts) {
